@@ -153,8 +153,8 @@ Proof.
     - exists []. simpl. rewrite app_nil_r. split; auto. intros ? []. }
   destruct (w_dest d) as [|r| |]; try apply Hsimple.
   - destruct (find_conn cs r) as [rc|] eqn:Ef; [|apply Hsimple].
-    destruct (policy_denies cf d F); [apply Hsimple|].
     destruct (has_fds F && negb (c_neg rc)) eqn:Eh; [apply Hsimple|].
+    destruct (policy_denies cf d F); [apply Hsimple|].
     destruct (reachable s gone r); [|apply Hsimple].
     splits; auto.
     + intros H B. apply bal_close. apply bal_deliv. exact B.
